@@ -23,6 +23,8 @@ type vWorld struct {
 	floor uint64
 	nops  int
 	evs   []vEvent // reference event log: one entry per successful write, in revision order
+	// marksMayRepeat relaxes the invariant's "no two adjacent deletion marks" clause
+	marksMayRepeat bool
 }
 
 // vEvent is what a watcher must see for one successful write.
